@@ -951,6 +951,9 @@ def check(ctx):
     _rule_copy(rep, ix, facts, fam1 + famm + fam2)
     _rule_bind(rep, ix, facts, fam1 + fam2)
     _rule_deep(rep, ix, facts, fam1 + famm + fam2)
+    from .c06_extra import extra
+
+    extra(ctx, rep)
     return rep
 
 
